@@ -52,9 +52,11 @@ CHECKS['C01'] = dict(
     level='exploration',
     rule='seeded histories of append/prepend/insert/remove/ownsHandle/empty/forEach/forEachIf/invoke/eventutil helpers over live, stale, '
          'empty and repeated handles, 8 configurations (4 prototypes, 5 policies, CallbackList and dispatcher lists), each step compared with '
-         'the sequential model + structural walk + ledger; a case is non-trivial when it contains >=1 successful remove and >=1 invocation; '
-         'distinct = distinct hash of the full operation/result trace',
-    jobs=JS('drv_cblist', 'asan', 'c01', 4000, 150000, M4, shards=4) + JS('drv_cblist', 'plain', 'c01', 8000, 300000, M4, seed_offset=1, shards=4),
+         'the sequential model + structural walk + ledger; user code that runs INSIDE an operation (the callback copy constructor inside insert) may remove the referenced callback; the histories '
+         'in which operations are issued from inside invocations (C02 programs) are run as well, since they are list histories too; a case is non-trivial when it contains >=1 successful remove and '
+         '>=1 invocation; distinct = distinct hash of the full operation/result trace',
+    jobs=JS('drv_cblist', 'asan', 'c01', 4000, 150000, M4, shards=4) + JS('drv_cblist', 'plain', 'c01', 8000, 300000, M4, seed_offset=1, shards=4)
+         + JS('drv_cblist', 'plain', 'c02', 8000, 100000, M4, seed_offset=2, shards=4),
     assumptions=['model M-list (DESIGN §4) is the specification', 'single-threaded histories; concurrency is C03'],
     technique='differential runtime monitor: generated histories vs sequential reference model, structural-invariant walker, instance ledger, ASan+UBSan',
     level_text='Exploration: thousands (quick) to hundreds of thousands (thorough) of seeded operation histories over 8 policy/prototype configurations are executed on the real headers; '
